@@ -15,6 +15,8 @@
     secs1.recv   i:hdr:body | r:hex                                  -> block hdr body|t2|badlength|t1|parse:e , answer
     secs1.line   dev limitM limitS faults M msg* S msg*             -> two endpoints over a faulty line (see `lineCmd`)
                  faults letters n f t k q o a ; msg = stream:fn:w:sys:bodyhex
+    secs1.lineev dev limitM limitS events M msg* S msg*              -> like secs1.line, but messages are OFFERED by events:
+                 events letters = fault letters, `M` / `S` = offer the next listed master / slave message now
 -/
 import GoSecs.Model.Secs1
 import GoSecs.Spec.E4Receive
@@ -151,6 +153,35 @@ def lineCmd (args : List String) : Option String :=
     pure s!"M {endpointStr r.master} | S {endpointStr r.slave} | quiescent={r.quiescent}"
   | _ => none
 
+/-- `dev limitM limitS events M msg* S msg*`: nothing is queued initially; `M`/`S` in `events` offer the next
+    listed message of that side (the straddle case: an offer in the middle of the peer's message). -/
+def lineEvCmd (args : List String) : Option String :=
+  match args with
+  | dev :: lm :: ls :: events :: "M" :: rest => do
+    let dev ← dev.toNat?
+    let lm ← lm.toNat?
+    let ls ← ls.toNat?
+    let mm := rest.takeWhile (· != "S")
+    let sm := (rest.dropWhile (· != "S")).drop 1
+    let mq ← mm.mapM (parseOutMsg dev true)
+    let sq ← sm.mapM (parseOutMsg dev false)
+    let rec go (l : Line) (mq sq : List OutMsg) : List Char → Option Line
+      | [] => some l
+      | 'M' :: cs => (match mq with
+          | m :: mq' => go (l.apply (.offerMaster m)) mq' sq cs
+          | [] => none)
+      | 'S' :: cs => (match sq with
+          | m :: sq' => go (l.apply (.offerSlave m)) mq sq' cs
+          | [] => none)
+      | c :: cs => do
+        let f ← parseFault c
+        go (stopAfterFailure (l.step f)) mq sq cs
+    let l0 : Line := { master := Endpoint.init true dev lm [], slave := Endpoint.init false dev ls [] }
+    let l ← go l0 mq sq (if events == "-" then [] else events.toList)
+    let r := runStop l (List.replicate 256 Fault.none)
+    pure s!"M {endpointStr r.master} | S {endpointStr r.slave} | quiescent={r.quiescent}"
+  | _ => none
+
 def handle (cmd : String) (args : List String) : Option String :=
   match cmd with
   | "secs1.hdr" =>
@@ -253,6 +284,7 @@ def handle (cmd : String) (args : List String) : Option String :=
            s!"{what} {hexOfBytes [r.answer]}")
       | _ => "bad-op")
   | "secs1.line" => some ((lineCmd args).getD "bad-op")
+  | "secs1.lineev" => some ((lineEvCmd args).getD "bad-op")
   | _ => none
 
 end GoSecs.Drv.Secs1
